@@ -93,7 +93,7 @@ class Number(Parseable[int]):
         atom = match.group(0)
         if not cls._num_pattern.match(atom):
             raise NotParseable(buf)
-        return cls(int(match.group(0))), buf[match.end(0):]
+        return cls(cls._parse_int(atom, buf)), buf[match.end(0):]
 
     def __bytes__(self) -> bytes:
         return self._raw
@@ -370,7 +370,7 @@ class LiteralString(String):
         if not match:
             raise NotParseable(buf)
         binary = match.group(1) == b'~'
-        literal_length = int(match.group(2))
+        literal_length = cls._parse_int(match.group(2), buf)
         if cls._check_too_big(params, literal_length):
             raise NotParseable(buf, b'TOOBIG')
         elif match.group(3) == b'+':
